@@ -362,9 +362,35 @@ def r1_tables_agree(ctx):
     if wchain is None or rchain is None:
         raise Undecided("encoding/decoding branches not found")
     keys = list(facts.fp_default(ctx.repo)) + list(facts.fp_results(ctx.repo))
+
+    def value_var(loop, chain, default="val"):
+        """the variable the branches transform: the value finally stored,
+        followed back through plain aliases to a name the branches assign"""
+        assigned = {norm(n.targets[0]) for t_, body in chain for st in body
+                    for n in ast.walk(st) if isinstance(n, ast.Assign)
+                    and isinstance(n.targets[0], ast.Name)}
+        if default in assigned:
+            return default
+        stores = [s for s in loop.body if isinstance(s, ast.Assign)
+                  and isinstance(s.targets[0], ast.Subscript)
+                  and isinstance(s.value, ast.Name)]
+        cur = stores[-1].value.id if stores else default
+        for _ in range(4):
+            if cur in assigned:
+                return cur
+            nxt = [s.value.id for s in loop.body if isinstance(s, ast.Assign)
+                   and norm(s.targets[0]) == cur
+                   and isinstance(s.value, ast.Name)]
+            if not nxt:
+                break
+            cur = nxt[-1]
+        return cur if cur in assigned else default
+    wvar, rvar = value_var(wloop, wchain), value_var(rloop, rchain)
+    wkey = norm(wloop.target) if isinstance(wloop.target, ast.Name) else "key"
+    rkey = "key"
     for key in keys:
-        wk = _branch_kind(wchain, key, "val", "key", True)
-        rk = _branch_kind(rchain, key, "val", "key", False)
+        wk = _branch_kind(wchain, key, wvar, wkey, True)
+        rk = _branch_kind(rchain, key, rvar, rkey, False)
         ctx.check(INVERSE.get(wk) == rk, wloop,
                   f"fit property '{key}': {wk} / {rk}",
                   f"fit property '{key}' is written with `{wk}` but read "
@@ -394,17 +420,21 @@ def r1_tables_agree(ctx):
     ctx.check(ok, ld, "curve = group of 'data hash', enumeration 'data enum'",
               "the stored analysis is attached to a curve that is not "
               "selected by the stored file hash and enumeration")
-    w_ok = {"data enum": "indent.enum", "data hash": "dhash"}
+    from ..symres import Resolver as _Res
+    Rw_ = _Res(W.fn)
+    w_ok = {"data enum": "indent.enum",
+            "data hash": "hash_file(indent.path)"}
     for a_, v_ in w_ok.items():
         ok = any(isinstance(st, ast.Assign) and norm(st.targets[0]) ==
-                 f"{W.outvar}.attrs['{a_}']" and norm(st.value) == v_
+                 f"{W.outvar}.attrs['{a_}']" and Rw_.text(st.value) == v_
                  for st in walk_no_nested(W.fn, False))
         ctx.check(ok, W.fn, f"attribute '{a_}' <- {v_}",
                   f"'{a_}' is not written from {v_}")
     emb = [c for c in calls_in(W.fn) if isinstance(c.func, ast.Attribute)
            and c.func.attr == "create_dataset"
            and norm(c.func.value) != W.outvar]
-    ok = len(emb) == 1 and norm(emb[0].args[0]) == "dhash" and \
+    ok = len(emb) == 1 and Rw_.text(emb[0].args[0]) == \
+        "hash_file(indent.path)" and \
         "np.fromfile(str(indent.path)" in norm(kwarg(emb[0], "data"))
     ctx.check(ok, W.fn, "raw measurement file embedded under its hash",
               "the embedded measurement is not the curve's file stored "
